@@ -88,7 +88,7 @@ META.update({
              "rules (best match by weight, %order_reverse pins, block exit last, children = matching rules' children + %global), with lemmas: rules that do not "
              "mention a row change nothing, and the only matching rule gives the rank. "
              "PatchTree.sort / make_patch, idempotence, independence of unrelated rows: bounded layer (synthetic disjoint ordering rulebooks, shipped "
-             "*.order files on the corpus). 2 known findings.",
+             "*.order files on the corpus, pinned small scenarios). 1 fixed (order_config took `notify ...` for a removal), 2 known findings.",
         note="make_patch sort_key / PatchTree.sort not under a discharged contract",
     ),
     "C09": dict(
